@@ -20,6 +20,9 @@ pub fn tamper_samples(t: Tier) -> usize {
 }
 /// 16 subsets x 3 kinds per sample, plus stored-R_A faults
 const C15_PAR: usize = 24;
+pub fn isolated_c15(t: Tier, i: usize) -> bool {
+    i > runs_c15(t) - 1 - C15_PAR && i % 2 == 0
+}
 pub fn runs_c15(t: Tier) -> usize {
     1 + honest_runs(t) + tamper_samples(t) * (16 * TAMPER_KINDS.len() + 2) + C15_PAR
 }
